@@ -153,19 +153,25 @@ def delimited_obligation(k, d, closing):
                 assumes=["the KMP matcher is an oracle (any answer sequence, except that a d-token delimiter cannot match before d tokens were read); that it answers correctly is decided under C20"])
 
 
+from props import c02_subst  # noqa: E402  (substitution, Macro::call, undelimited arguments)
+
 PROP = {
-    "title": "Macro parameters: one pair of outer braces is removed only from a single group",
+    "title": "Macro parameters: argument scanning, brace stripping and #n substitution (driver level)",
     "level_text": (
-        "Two pieces are decided. (1) The scan of a delimited argument (parse_delimited_argument from MIR with the token stream and the KMP matcher stubbed): stops at the first "
+        "Five pieces are decided, all from MIR with the VM side stubbed. (1) The scan of a delimited argument (parse_delimited_argument, stream + KMP matcher stubbed): stops at the first "
         "delimiter match at the closing depth, removes exactly the delimiter, touches nothing before the argument. (2) 'one pair of outer braces is removed only when the whole argument is a single group' "
-        "(TeX.2021.393), for every balanced argument of up to 6 tokens. Delimiter matching, undelimited arguments, #n substitution, ## and "
-        "'the tokens after the call are untouched' run on VM token streams and are NOT decided."),
+        "(TeX.2021.393), for every balanced argument of up to 6 tokens. (3) The scan of an undelimited argument (parse_undelimited_argument + finish_parsing_balanced_tokens): one token, or the contents of "
+        "a balanced group without its braces, for every stream of up to 7 (thorough 9) tokens. (4) #n substitution (perform_replacement) for every replacement-text structure of up to 2 (thorough 3) "
+        "pieces and every token value. (5) Macro::call with the scanner stubbed: arguments scanned in order, outer braces dropped exactly when the scanner says so, the expansion is the substituted "
+        "replacement text and lies on top of what was already on the expansion stack. "
+        "Delimiter matching itself (C20), skipping blanks before an undelimited argument, prefix matching, \\def's parsing of parameter and replacement text (## and #n recognition) are NOT decided."),
     "explanation": "Parameter::should_trim_outer_braces_if_present is executed from MIR on token slices of each length 1..6 with every token kind symbolic.",
     "outside": [
-        "Macro::call, parse_undelimited_argument, perform_replacement (#n substitution, ##), def.rs parameter-text parsing: VM-bound, NOT decided",
+        "def.rs (parsing of the parameter text and of the replacement text: ##, #n recognition, reversal of token runs), remove_tokens_from_stream (prefix matching), SpacesUnexpanded: VM-bound, NOT decided",
+        "Macro::call is decided with the argument scanner stubbed (7 parameter/replacement shapes); 'the tokens after the call are untouched' follows only as far as the scanners consume nothing beyond the argument (pieces 1 and 3)",
         "parse_delimited_argument is decided at driver level only (stream and matcher stubbed, <= 5 tokens, delimiters of 1-2 tokens); 'shortest match' is as good as the matcher's answers (C20)",
         "arguments longer than 6 tokens",
     ],
     "assumptions": ["private function: the translator is not cross-checked natively for this obligation"],
-    "obligations": [ob(k) for k in (1, 2, 3, 4, 5, 6)] + [delimited_obligation(4, 1, 0), delimited_obligation(5, 2, 0), delimited_obligation(4, 1, 1)],
+    "obligations": [ob(k) for k in (1, 2, 3, 4, 5, 6)] + [delimited_obligation(4, 1, 0), delimited_obligation(5, 2, 0), delimited_obligation(4, 1, 1)] + c02_subst.OBLIGATIONS,
 }
